@@ -27,6 +27,7 @@ using pm::Rec;
 using sm::Key;
 
 static struct rtr_socket g_socks[3];
+static std::string g_prop = "C16";
 struct Op { char kind = 'a'; int id = 0, src = 0; }; // a/r pfx add/remove, s pfx src_remove, A/R key add/remove, S key src_remove
 struct Case { std::vector<Op> ops; int readers = 4; unsigned yseed = 1; };
 
@@ -51,11 +52,12 @@ static Case parse_case(const std::string &t)
 	}
 	return c;
 }
+static int g_reload_weight = 3;
 static rc::Gen<Case> genCase()
 {
 	using namespace rc;
 	auto op = gen::apply([](char k, int id, int src) { Op p; p.kind = k; p.id = id; p.src = src; return p; },
-			     gen::weightedElement<char>({{30, 'a'}, {24, 'r'}, {4, 's'}, {14, 'A'}, {10, 'R'}, {3, 'S'}}), rng<int>(0, 39), rng<int>(0, 2));
+			     gen::weightedElement<char>({{30, 'a'}, {24, 'r'}, {4, 's'}, {14, 'A'}, {10, 'R'}, {3, 'S'}, {g_reload_weight, 'W'}, {g_reload_weight, 'X'}}), rng<int>(0, 39), rng<int>(0, 2));
 	return gen::apply([](std::vector<Op> ops, int r, unsigned y) { Case c; c.ops = ops; c.readers = r; c.yseed = y; return c; }, gen::container<std::vector<Op>>(op), gen::element<int>(2, 4, 8), gen::arbitrary<unsigned>());
 }
 
@@ -220,6 +222,8 @@ static Traj trajectory(const Case &c)
 		case 'A': rc = s.add(key_of(o.id, o.src)); break;
 		case 'R': rc = s.remove(key_of(o.id, o.src)); break;
 		case 'S': s.src_remove(o.src % 3); break;
+		case 'W': p.src_remove(o.src % 3); for (int k : {0, 3, 7, 26}) p.add(pfx_of(o.id + k, o.src)); break; // full reload of one source's prefixes
+		case 'X': s.src_remove(o.src % 3); for (int k : {0, 5}) s.add(key_of(o.id + k, o.src)); break;
 		}
 		t.rc.push_back(rc);
 		t.p.push_back(p);
@@ -235,7 +239,27 @@ static int apply_lib(struct pfx_table *pt, struct spki_table *st, const Op &o)
 	case 's': return pfx_table_src_remove(pt, &g_socks[o.src % 3]);
 	case 'A': { struct spki_record r = to_lib(key_of(o.id, o.src)); return spki_table_add_entry(st, &r); }
 	case 'R': { struct spki_record r = to_lib(key_of(o.id, o.src)); return spki_table_remove_entry(st, &r); }
-	default: return spki_table_src_remove(st, &g_socks[o.src % 3]);
+	case 'S': return spki_table_src_remove(st, &g_socks[o.src % 3]);
+	case 'W': { // the reload sequence of rtr_sync: build aside, swap, diff, drop the old one
+		struct pfx_table sh;
+		pfx_table_init(&sh, nullptr);
+		pfx_table_copy_except_socket(pt, &sh, &g_socks[o.src % 3]);
+		for (int k : {0, 3, 7, 26}) { struct pfx_record r = to_lib(pfx_of(o.id + k, o.src)); pfx_table_add(&sh, &r); }
+		pfx_table_swap(pt, &sh);
+		pfx_table_notify_diff(pt, &sh, &g_socks[o.src % 3]);
+		pfx_table_free_without_notify(&sh);
+		return 0;
+	}
+	default: {
+		struct spki_table *sh = shim_spki_table_new(nullptr);
+		spki_table_copy_except_socket(st, sh, &g_socks[o.src % 3]);
+		for (int k : {0, 5}) { struct spki_record r = to_lib(key_of(o.id + k, o.src)); spki_table_add_entry(sh, &r); }
+		spki_table_swap(st, sh);
+		spki_table_notify_diff(st, sh, &g_socks[o.src % 3]);
+		spki_table_free_without_notify(sh);
+		free(sh);
+		return 0;
+	}
 	}
 }
 
@@ -303,7 +327,7 @@ static vf::Result run_det(const Case &c, Info *info)
 			std::string got = lib_answer(&pt, st, q);
 			std::string a = model_answer(t.p[cur], t.s[cur], q), b = model_answer(t.p[cur + 1], t.s[cur + 1], q);
 			if (got != a && got != b) {
-				res = vf::Result::fail("C16:torn-state-between-critical-sections",
+				res = vf::Result::fail((g_prop + ":torn-state-between-critical-sections"),
 						       "during op#" + std::to_string(cur) + " (" + c.ops[cur].kind + " " + std::to_string(c.ops[cur].id) + "), at a point where no write lock is held, query kind " + std::to_string(q.kind) + "/" + std::to_string(q.id) +
 							       " answers '" + got.substr(0, 120) + "' which is neither the answer before ('" + a.substr(0, 120) + "') nor after ('" + b.substr(0, 120) + "') the operation");
 				return;
@@ -317,7 +341,7 @@ static vf::Result run_det(const Case &c, Info *info)
 		points_in_op = 0;
 		g_wdepth = 0;
 		int rc = apply_lib(&pt, st, c.ops[cur]);
-		if (res.ok && rc != t.rc[cur] && c.ops[cur].kind != 's' && c.ops[cur].kind != 'S') res = vf::Result::fail("C16:writer-return-code", "op#" + std::to_string(cur) + " returned " + std::to_string(rc) + ", sequential model says " + std::to_string(t.rc[cur]));
+		if (res.ok && rc != t.rc[cur] && c.ops[cur].kind != 's' && c.ops[cur].kind != 'S' && c.ops[cur].kind != 'W' && c.ops[cur].kind != 'X') res = vf::Result::fail((g_prop + ":writer-return-code"), "op#" + std::to_string(cur) + " returned " + std::to_string(rc) + ", sequential model says " + std::to_string(t.rc[cur]));
 		if (points_in_op > 1 && info) info->inside_multistep++;
 	}
 	g_have_writer = false;
@@ -388,14 +412,14 @@ static vf::Result run_thr(const Case &c, Info *info, int rounds)
 			sh.started.store((int)i + 1, std::memory_order_seq_cst);
 			int rc = apply_lib(&pt, st, c.ops[i]);
 			sh.finished.store((int)i + 1, std::memory_order_seq_cst);
-			if (rc != t.rc[i] && c.ops[i].kind != 's' && c.ops[i].kind != 'S' && res.ok) res = vf::Result::fail("C16:writer-return-code", "op#" + std::to_string(i) + " returned " + std::to_string(rc) + ", sequential model says " + std::to_string(t.rc[i]));
+			if (rc != t.rc[i] && c.ops[i].kind != 's' && c.ops[i].kind != 'S' && c.ops[i].kind != 'W' && c.ops[i].kind != 'X' && res.ok) res = vf::Result::fail((g_prop + ":writer-return-code"), "op#" + std::to_string(i) + " returned " + std::to_string(rc) + ", sequential model says " + std::to_string(t.rc[i]));
 		}
 		sh.stop = true;
 		for (auto &x : th) pthread_join(x, nullptr);
 		g_perturb = false;
 		pfx_table_free(&pt);
 		shim_spki_table_delete(st);
-		if (!sh.failure.empty() && res.ok) res = vf::Result::fail("C16:not-linearizable", sh.failure);
+		if (!sh.failure.empty() && res.ok) res = vf::Result::fail((g_prop + ":not-linearizable"), sh.failure);
 	}
 	if (info) info->overlapped = sh.overlapped;
 	return res;
@@ -405,7 +429,9 @@ int main(int argc, char **argv)
 {
 	vf::Args args = vf::parse_args(argc, argv);
 	if (args.prop.empty()) args.prop = "C16";
+	g_prop = args.prop;
 	build_pool();
+	if (args.prop == "C06") g_reload_weight = 30;
 	std::string mode = args.kv.count("mode") ? args.kv["mode"] : "det";
 	int rounds = (int)args.num("rounds", 3);
 	auto run_one = [&](const Case &c, Info *info) { return mode == "det" ? run_det(c, info) : run_thr(c, info, rounds); };
